@@ -317,6 +317,8 @@ type pxRig struct {
 	orig     map[int64]*Rpc
 	byId     map[uint64]int64
 	bareOwner map[error]*pxRec
+	holdName  int64         // the disconnect callback for this name blocks ...
+	holdCh    chan struct{} // ... until this is closed
 	lastDrop int64
 	nDel     uint64
 }
@@ -550,6 +552,22 @@ func (r *pxRig) do(a PAct) string {
 	case "cancel":
 		r.cancel()
 		return "ACancel"
+	case "hold": // the next disconnect callback for name N does not return until "release" (no model action)
+		r.mu.Lock()
+		r.holdName, r.holdCh = a.N, make(chan struct{})
+		r.mu.Unlock()
+		return ""
+	case "release":
+		r.mu.Lock()
+		if r.holdCh != nil {
+			close(r.holdCh)
+			r.holdCh = nil
+		}
+		r.mu.Unlock()
+		return ""
+	case "wait": // inside a group: let the proxy settle before the next action of the group (no step boundary)
+		synctest.Wait()
+		return ""
 	}
 	panic("unknown op " + a.Op)
 }
@@ -655,7 +673,14 @@ func (r *pxRig) start() {
 				who = int64(rec.idx)
 			}
 			r.discs = append(r.discs, coqPair(coqZ(pxTok(id)), coqZ(who)))
+			var hold chan struct{}
+			if r.holdCh != nil && r.holdName == pxTok(id) {
+				hold, r.holdName = r.holdCh, 0 // a slow callback: the serve loop stays in here until "release"
+			}
 			r.mu.Unlock()
+			if hold != nil {
+				<-hold
+			}
 		})
 	go func() {
 		defer func() {
@@ -670,6 +695,12 @@ func (r *pxRig) start() {
 }
 
 func (r *pxRig) cleanup() {
+	r.mu.Lock()
+	if r.holdCh != nil {
+		close(r.holdCh)
+		r.holdCh = nil
+	}
+	r.mu.Unlock()
 	r.cancel()
 	r.mu.Lock()
 	all := append(append([]*pxRec{}, r.recs...), r.newDials...)
